@@ -174,6 +174,7 @@ def random_traces(ctx, count, depth, tag, prop):
     for case, res in zip(cases, results):
         r = check_res(json.dumps(case), res)
         if r is None:
+            # a fatal crash / hang inside a shard of random cases: the shard itself is the replayable case
             direct_bad.append(dict(sig=dict(op="rand", entry="untyped", kind_at_fault="?", arg_class="?",
                                             divergence=res["crash"], frame=res.get("frame", "")),
                                    detail=dict(case=case, stderr=res.get("detail", "")[:3000])))
@@ -185,7 +186,7 @@ def random_traces(ctx, count, depth, tag, prop):
         trace.extend(r.get("trace", []))
     rejected = []
     accepted = 0
-    batch = 4000
+    batch = 20000
     for b in range(0, len(trace), batch):
         part = trace[b:b + batch]
         tpath = os.path.join(ctx.tmp, "trace-%s-%d.ndjson" % (tag, b))
@@ -234,6 +235,21 @@ def replay_rejected(ctx, rejected, tag, consume):
     ctx.extra["trace_lines_rejected_by_the_statement"] = len(cases)
 
 
+def rerun_direct(ctx, direct_bad, tag, consume):
+    """Divergences the random driver met outside the trace (panics, values outside the abstraction whose
+    accepted result violates a declared constraint) carry a replayable case: run it again as its own case so
+    that the verdict, the localisation and the replay file come from the same path as everything else."""
+    cases = [m["detail"]["case"] for m in direct_bad if m["detail"].get("case")]
+    for m in direct_bad:
+        if not m["detail"].get("case"):
+            raise common.Infra("random driver reported a divergence without a replayable case: %s" % json.dumps(m)[:500])
+    if not cases:
+        return
+    path = os.path.join(ctx.tmp, "direct-%s.ndjson" % tag)
+    common.write_ndjson(path, cases)
+    consume(ctx, [json.dumps(c) for c in cases], run_driver(ctx, path, "direct-" + tag, jobs=4))
+
+
 # ---------------------------------------------------------------------------------- the check
 def run(ctx):
     thorough = ctx.tier == "thorough"
@@ -255,14 +271,11 @@ def run(ctx):
     for i in (0, len(lines) // 3, 2 * len(lines) // 3, len(lines) - 1):
         ctx.sample(parse_case(lines[i]))
 
-    accepted, rejected, direct_bad, total = random_traces(ctx, 60000 if thorough else 6000, 4, "c02", "C02")
+    accepted, rejected, direct_bad, total = random_traces(ctx, 150000 if thorough else 20000, 4, "c02", "C02")
     ctx.traces += accepted
     ctx.extra["random_trace_lines"] = total
     replay_rejected(ctx, rejected, "c02", consume_c02)
-    for m in direct_bad:
-        kind, text = classify(m, None)
-        if kind == "violation-c02":
-            ctx.violation(sig_c02(m["sig"]), dict(detail=m["detail"], statement=STATEMENT, case=m["detail"].get("case")))
+    rerun_direct(ctx, direct_bad, "c02", consume_c02)
     ctx.assumptions += [
         "generated schemas are well-formed (SchemaAST!WF: min <= max, non-negative sizes, map keys of string/int/enum kind, "
         "distinct enum values); mis-built schemas may panic by contract",
